@@ -390,6 +390,28 @@ func monotoneAtomLint(w *World, r *Report, rule string) {
 					if !twice {
 						continue
 					}
+					// an entry is entered once: a function body that assocs the same key twice with different values
+					// shows the first one (a placeholder for "in progress") to every reader in between as the result
+					for _, b := range s.items[2:] {
+						b.walk(func(fnx *sx) {
+							if fnx.head() != "fn" {
+								return
+							}
+							first := map[string]*sx{}
+							fnx.walk(func(x *sx) {
+								if x.head() != "swap!" || len(x.items) < 5 || x.items[1].kind != "sym" || x.items[1].text != a || x.items[2].kind != "sym" || x.items[2].text != "assoc" {
+									return
+								}
+								key, val := x.items[3].String(), x.items[4].String()
+								if prev, seen := first[key]; seen && prev.items[4].String() != val {
+									n++
+									r.addRaw(rule, f.path, "(swap! "+a+" assoc "+cut(key, 30)+" …) twice in one function", fmt.Sprintf("%s:%d", f.path, x.line), "violated", "the entry for "+cut(key, 30)+" is entered as "+cut(prev.items[4].String(), 30)+" (line "+fmt.Sprint(prev.line)+") and replaced by "+cut(val, 30)+" later in the same function: between the two every other reader of the atom that tests for the key and then reads it takes the first value for the result")
+								} else if !seen {
+									first[key] = x
+								}
+							})
+						})
+					}
 					for _, b := range s.items[2:] {
 						b.walk(func(x *sx) {
 							if x.head() != "swap!" || len(x.items) < 3 || x.items[1].kind != "sym" || x.items[1].text != a {
